@@ -225,7 +225,33 @@ fn gen_records(w: &World, kind: Kind, scale: Scale, magic: Option<usize>, edge_d
         // relations between fields and between neighbouring records (1 record in 12)
         if w.chance(1, 12) {
             w.probe("related_fields_or_records");
-            match (w.draw(6), v.last()) {
+            match (w.draw(10), v.last()) {
+                (6, _) => {
+                    // a homopolymer, and qualities of one value (run-length or dedup code paths)
+                    let c = rec.seq[0];
+                    rec.seq.iter_mut().for_each(|b| *b = c);
+                    if let Some(&q) = rec.qual.first() {
+                        rec.qual.iter_mut().for_each(|b| *b = q);
+                    }
+                }
+                (7, Some(_)) => {
+                    // the id of an earlier, not necessarily neighbouring, record with other content
+                    rec.id = v[w.draw(v.len() as u64) as usize].id.clone();
+                }
+                (8, Some(prev)) => {
+                    // the residues of the previous record under a new name
+                    rec.seq = prev.seq.clone();
+                    if kind == Kind::Fastq {
+                        rec.qual = prev.qual.clone();
+                    }
+                }
+                (9, _) => {
+                    // a reverse palindrome / a sequence that reads the same backwards
+                    let n = rec.seq.len();
+                    for i in 0..n / 2 {
+                        rec.seq[n - 1 - i] = rec.seq[i];
+                    }
+                }
                 (0, Some(prev)) => rec = prev.clone(), // the same record twice in a row
                 (1, Some(prev)) => rec.id = format!("{}{}", prev.id, rec.id), // previous id is a prefix
                 (2, Some(prev)) => {
@@ -318,6 +344,49 @@ fn gen_writer_cfg(w: &World, kind: Kind, recs: &[Rec], magic: Option<usize>) -> 
         flush,
         flush_each,
     }
+}
+
+/// Make the first record tile the writer's buffer: after its header and a whole number of
+/// sequence lines the number of buffered bytes is exactly the capacity (or one off, or twice it),
+/// with a partial last line to follow. Code that flushes, or switches path, "when the next line
+/// no longer fits" meets its boundary on purpose rather than by luck.
+fn tile_buffer(w: &World, kind: Kind, rec: &mut Rec, cfg: &mut WriterCfg) {
+    let hdr = header_bytes(b'>', rec).len() + 1;
+    let target = match w.draw(4) {
+        0 => cfg.cap,
+        1 => cfg.cap + 1,
+        2 => cfg.cap - 1,
+        _ => 2 * cfg.cap,
+    };
+    if target <= hdr + 2 {
+        return;
+    }
+    let room = target - hdr;
+    let len = if kind == Kind::Fasta && cfg.wrap.is_some() {
+        // a line length (wrap + 1) that divides the room
+        let mut d = room;
+        for _ in 0..8 {
+            let c = 2 + w.draw(room.min(120) as u64 - 1) as usize;
+            if room % c == 0 {
+                d = c;
+                break;
+            }
+        }
+        cfg.wrap = Some(d - 1);
+        cfg.wrap2 = None;
+        (room / d) * (d - 1) + w.draw(d as u64 - 1) as usize
+    } else if kind == Kind::Fasta {
+        room - 1
+    } else {
+        // "@hdr\nseq\n+\nqual\n"
+        (room.saturating_sub(3) / 2).max(1)
+    };
+    let len = len.max(1);
+    rec.seq = pattern_seq(w, len);
+    if kind == Kind::Fastq {
+        rec.qual = pattern_qual(w, len);
+    }
+    w.probe("first_record_tiles_writer_buffer");
 }
 
 impl WriterCfg {
@@ -1218,7 +1287,11 @@ fn roundtrip(w: &W, kind: Kind, with_cut: bool) -> Verdict {
             w.note("magic_size", json!(m));
         }
     }
-    let recs = gen_records(w, kind, scale, magic, !with_cut);
+    let mut recs = gen_records(w, kind, scale, magic, !with_cut);
+    let mut wcfg = gen_writer_cfg(w, kind, &recs, magic);
+    if !recs.is_empty() && wcfg.cap >= 8 && wcfg.cap <= 70_000 && w.chance(1, 12) {
+        tile_buffer(w, kind, &mut recs[0], &mut wcfg);
+    }
     if !recs.is_empty() {
         w.probe("workload_nonempty");
     }
@@ -1232,7 +1305,6 @@ fn roundtrip(w: &W, kind: Kind, with_cut: bool) -> Verdict {
         w.note("format", json!(format!("{:?}", kind)));
         w.note("workload", json!(recs.iter().map(|r| r.json()).collect::<Vec<_>>()));
     }
-    let wcfg = gen_writer_cfg(w, kind, &recs, magic);
     if w.keep_trace {
         w.note(
             "writer",
